@@ -754,6 +754,13 @@ func (x *Exec) stub(st *State, f *Frame, in *ssa.Call, fn *ssa.Function, name st
 		}
 		x.ret(f, in, A{out})
 		return true
+	case "(*sync.Mutex).Lock", "(*sync.Mutex).Unlock", "(*sync.RWMutex).Lock", "(*sync.RWMutex).Unlock", "(*sync.RWMutex).RLock", "(*sync.RWMutex).RUnlock":
+		// a single call is executed sequentially: locking has no effect on its result (writes to shared state are still recorded)
+		x.ret(f, in, nil)
+		return true
+	case "(*sync.Mutex).TryLock":
+		x.ret(f, in, W{d.Bool(true)})
+		return true
 	case "strconv.Itoa":
 		n := x.word(args[0])
 		if !n.IsConst() {
